@@ -1000,6 +1000,8 @@ pub struct HeaderBend {
     /// value written in the 8/16-bit block size extension
     pub bs_ext: Option<u32>,
     pub footer_pad_ones: bool,
+    /// value written in the 8-bit / 16-bit sample-rate extension field (rate codes 12, 13, 14)
+    pub rate_ext: Option<u32>,
     /// blocking strategy bit: the coded number is the number of the frame's first sample (legal)
     pub variable: bool,
 }
@@ -1114,9 +1116,9 @@ pub fn write_frame(f: &FrameSpec) -> Vec<u8> {
         _ => {}
     }
     match f.rate_code {
-        12 => o.put(8, 44),
-        13 => o.put(16, 44100),
-        14 => o.put(16, 4410),
+        12 => o.put(8, f.bend.rate_ext.unwrap_or(44) as u64 & 0xFF),
+        13 => o.put(16, f.bend.rate_ext.unwrap_or(44100) as u64 & 0xFFFF),
+        14 => o.put(16, f.bend.rate_ext.unwrap_or(4410) as u64 & 0xFFFF),
         _ => {}
     }
     let c8 = crc8(&o.bytes);
